@@ -945,6 +945,7 @@ def c16(ctx):
 
 
 def c08(ctx):
+    ctx.level = "exploration"       # as claimed in MANIFEST.json: mutation-based exploration judged by the TLA+ trace specification
     dev = build()
     rel = build(release=True)
     per = 1500 if ctx.quick() else 25000
